@@ -1131,7 +1131,9 @@ fn do_weighted(c: &mut Ctx, s: u64, t: u64, costs: &BTreeMap<u64, i128>, negativ
     }
 }
 
-/// A* with the default (zero) heuristic and Direction::Outgoing: oracle only (no Lean model).
+/// A* with the default (zero) heuristic, every direction: the COST is compared with the Lean model
+/// (`astarCost`; which of several optimal paths comes back depends on heap tie order), the returned
+/// path is validated as a walk of that cost against the Bellman-Ford reference.
 fn do_astar(c: &mut Ctx, s: u64, t: u64, costs: &BTreeMap<u64, i128>, dir: Direction) {
     let g = c.g;
     let tag = c.tag.clone();
@@ -1141,6 +1143,21 @@ fn do_astar(c: &mut Ctx, s: u64, t: u64, costs: &BTreeMap<u64, i128>, dir: Direc
     let res = c.eng.astar_path(s, t, &cfg);
     let key = format!("{}|{}", tag, line);
     c.rep.case("astar_path", if s != t { Some(&key) } else { None });
+    {
+        let imp = match &res {
+            Ok(r) => match &r.path {
+                None => "none".to_string(),
+                Some(p) => match cost_exact(p.total_weight) {
+                    Some(x) => format!("ok {x}"),
+                    None => format!("ok ~{}", p.total_weight),
+                },
+            },
+            Err(e) => format!("err {e:?}"),
+        };
+        let mline = format!("astar {s} {t} {}", dir_name(dir));
+        let model = c.m.ask(&mline);
+        c.rep.compare("astar_path", || qjson(g, &tag, &line), &imp, &model);
+    }
     let site = "graph_engine.astar_path";
     match res {
         Err(e) => viol(c.rep, &format!("{site}/unexpected_error"), &format!("{e:?}"), qjson(g, &tag, &line)),
@@ -1817,7 +1834,7 @@ fn main() {
         let plan = plan_graph(&mut gen, if i % 4 == 3 { 1 } else { 0 }, true);
         run_graph(&plan, &mut m, &mut rep, &mut qr, &budget);
     }
-    rep.note("A*, find_all_weighted_paths and the algorithm family (components, SCC, spanning forest, core numbers, triangles, articulation points, bridges) have no Lean model: the engine is compared with independent harness-side reference implementations only (Spec section of Paths/Spec.lean gives the definitions they compute)");
+    rep.note("A* (zero heuristic) is modelled for its cost only; find_all_weighted_paths and the algorithm family (components, SCC, spanning forest, core numbers, triangles, articulation points, bridges) have no Lean model: the engine is compared with independent harness-side reference implementations only (Spec section of Paths/Spec.lean gives the definitions they compute)");
     rep.note("graphs with a negative weight are outside the property's quantifier: find_weighted_path is only compared with the model there (error/early-exit behaviour)");
     rep.note("weights are integers (Int or integer-valued Float properties) with path sums < 2^53, on which the engine's f64 arithmetic is exact");
     rep.write(&args.out);
